@@ -15,6 +15,7 @@ import (
 	"hop.computer/hop/certs"
 	"hop.computer/hop/common"
 	"hop.computer/hop/keys"
+	"hop.computer/hop/pkg/verifhook"
 )
 
 type serverState uint32
@@ -147,6 +148,7 @@ func (s *Server) writePacket(pkt []byte, dst *net.UDPAddr) error {
 
 func (s *Server) readPacket(rawRead []byte, handshakeWriteBuf []byte) error {
 	msgLen, oobn, flags, addr, err := s.udpConn.ReadMsgUDP(rawRead, nil)
+	verifhook.Pause("transport.Server.readPacket:read")
 	if err != nil {
 		return err
 	}
@@ -522,6 +524,7 @@ func (s *Server) Serve() error {
 	}
 	s.wg.Add(2)
 	s.lifecycleMu.Unlock()
+	verifhook.Pause("transport.Server.Serve:started")
 
 	go func() {
 		defer s.wg.Done()
@@ -765,11 +768,14 @@ func (s *Server) Close() (err error) {
 	}
 
 closing:
+	verifhook.Pause("transport.Server.Close:elected")
 	// Closing the socket unblocks both the Serve read loop and any in-flight
 	// writes before we wait for workers or acquire per-session locks.
 	s.closeErr = s.udpConn.Close()
+	verifhook.Pause("transport.Server.Close:socket-closed")
 	close(s.stopCookieRotate)
 	s.wg.Wait()
+	verifhook.Pause("transport.Server.Close:workers-done")
 
 	s.m.Lock()
 	close(s.pendingConnections)
